@@ -3372,9 +3372,22 @@ func checkModelOptionSettersVerbatim(c *Ctx, rule string) int {
 // a descriptor with yaml.Unmarshal do not assign to the decoded value's fields afterwards (defaults filled in at read
 // time make the value differ from the stored one, and hide an incomplete descriptor from the validation that follows).
 func checkUnmarshalIsPlain(c *Ctx, rule string) int {
+	return checkUnmarshalIsPlainIn(c, rule, "pkg/model", "")
+}
+
+// checkFileListsDecodedPlain (C11, C04, pooled): the same for the file lists pkg/core decodes (index files of bundles
+// and splits): every stored entry — also one for an empty file — is an entry of the bundle; filtering or rewriting the
+// decoded list drops files from downloads and merges without an error.
+func checkFileListsDecodedPlain(c *Ctx, rule string) {
+	if checkUnmarshalIsPlainIn(c, rule, "pkg/core", "pkg/model.BundleEntries") < 2 && c.sharedReach == nil {
+		c.shape3(rule, "pkg/core.fileIndex.getIndexFile", "fewer than 2 functions of pkg/core decoding a file list into a local found")
+	}
+}
+
+func checkUnmarshalIsPlainIn(c *Ctx, rule, pkg, onlyType string) int {
 	p := c.P
 	n := 0
-	for _, f := range p.FuncsIn("pkg/model") {
+	for _, f := range p.FuncsIn(pkg) {
 		if f.Decl.Body == nil {
 			continue
 		}
@@ -3391,7 +3404,7 @@ func checkUnmarshalIsPlain(c *Ctx, rule string) int {
 				arg = ast.Unparen(u.X)
 			}
 			if id, ok := arg.(*ast.Ident); ok {
-				if v, ok := info.Uses[id].(*types.Var); ok {
+				if v, ok := info.Uses[id].(*types.Var); ok && (onlyType == "" || namedTypeID(v.Type()) == onlyType) {
 					target, at = v, call.End()
 				}
 			}
@@ -3591,8 +3604,14 @@ func checkTryGoHandled(c *Ctx, rule string, pkgs ...string) {
 				// only dispatches that carry per-iteration data: a function literal using a variable defined inside the
 				// enclosing loop (a received batch, a range element). A refused start of a worker that pulls its own work
 				// (e.g. the next index chunk, taken from the KV by whoever runs next) loses nothing.
-				lit, isLit := ast.Unparen(call.Args[0]).(*ast.FuncLit)
-				if !isLit {
+				// the operand: a literal, or a call building the worker from its arguments (repoKeysScanner(ctx, …, repo, …))
+				var lit ast.Node
+				switch a := ast.Unparen(call.Args[0]).(type) {
+				case *ast.FuncLit:
+					lit = a
+				case *ast.CallExpr:
+					lit = a
+				default:
 					return true
 				}
 				var loop ast.Node
@@ -3606,7 +3625,7 @@ func checkTryGoHandled(c *Ctx, rule string, pkgs ...string) {
 				}
 				carries := false
 				if loop != nil {
-					ast.Inspect(lit.Body, func(m ast.Node) bool {
+					ast.Inspect(lit, func(m ast.Node) bool {
 						if id, ok := m.(*ast.Ident); ok {
 							if v, ok := info.Uses[id].(*types.Var); ok && !v.IsField() && encloses(loop, v.Pos()) && !encloses(lit, v.Pos()) {
 								carries = true
@@ -4277,25 +4296,39 @@ func checkWriterFlushShape(c *Ctx, rule string) {
 		"Flush tests its collected errors with `"+errCond+"`: a failed leaf write no longer fails the Put, which returns a key over fewer (or other) leaves")
 	// key serialisation: every copy whose source or destination is a Key
 	nCopy := 0
+	// Flush itself and the unexported helpers of the package it calls (the serialisation loop may live in one)
+	scan := []*FuncInfo{f}
 	ast.Inspect(f.Decl.Body, func(nd ast.Node) bool {
-		call, ok := nd.(*ast.CallExpr)
-		if !ok || calleeID(info, call) != "builtin.copy" {
-			return true
-		}
-		isKeySlice := func(e ast.Expr) bool {
-			if se, ok := ast.Unparen(e).(*ast.SliceExpr); ok {
-				return namedTypeID(info.TypeOf(se.X)) == "pkg/cafs.Key"
+		if call, ok := nd.(*ast.CallExpr); ok {
+			if h := p.FuncOpt(calleeID(info, call)); h != nil && h.Decl.Body != nil && h != f && !ast.IsExported(h.Decl.Name.Name) && strings.HasPrefix(h.ID, "pkg/cafs.") {
+				scan = append(scan, h)
 			}
-			return false
-		}
-		if isKeySlice(call.Args[0]) || isKeySlice(call.Args[1]) {
-			nCopy++
-			c.check(isKeySlice(call.Args[1]) && !isKeySlice(call.Args[0]), rule, callKey(f, call), p.Pos(call.Pos()),
-				"leaf keys are copied into the output buffer",
-				"Flush copies `"+exprString(call.Args[1])+"` into `"+exprString(call.Args[0])+"`: the key list of the root blob is written the wrong way round (into a loop copy of the key): every root blob holds zeroes instead of its leaf keys")
 		}
 		return true
 	})
+	for _, g := range scan {
+		g := g
+		ginfo := g.Info()
+		ast.Inspect(g.Decl.Body, func(nd ast.Node) bool {
+			call, ok := nd.(*ast.CallExpr)
+			if !ok || calleeID(ginfo, call) != "builtin.copy" {
+				return true
+			}
+			isKeySlice := func(e ast.Expr) bool {
+				if se, ok := ast.Unparen(e).(*ast.SliceExpr); ok {
+					return namedTypeID(ginfo.TypeOf(se.X)) == "pkg/cafs.Key"
+				}
+				return false
+			}
+			if isKeySlice(call.Args[0]) || isKeySlice(call.Args[1]) {
+				nCopy++
+				c.check(isKeySlice(call.Args[1]) && !isKeySlice(call.Args[0]), rule, callKey(g, call), p.Pos(call.Pos()),
+					"leaf keys are copied into the output buffer",
+					"Flush copies `"+exprString(call.Args[1])+"` into `"+exprString(call.Args[0])+"`: the key list of the root blob is written the wrong way round (into a loop copy of the key): every root blob holds zeroes instead of its leaf keys")
+			}
+			return true
+		})
+	}
 	if nCopy == 0 {
 		c.fail(rule, f.ID+":keys-copied", p.Pos(f.Decl.Pos()), "Flush no longer serialises the leaf keys")
 	}
